@@ -209,6 +209,27 @@ def rule_p3(ctx, F):
         ctx.gate("P3", rm, raw, [("a plain array erase is used on finished_states only while no heap order exists", "self->finished_states_heap_size > 0", False)], accept_desc="array_erase on finished_states")
 
 
+def rule_rust(ctx):
+    """Text predicates: each multi-chunk node text is assembled in a freshly cleared scratch buffer."""
+    import rsrules
+    from rsrules import calls_named
+    ctx.config = "rust"
+    F = ctx.extract.rsfacts("tree_sitter")
+    fns = [f for f in F.fn_list if f.name.endswith("NodeText::<'a, T>::get_text") or f.name.endswith("NodeText::get_text") or "NodeText" in f.name and f.name.endswith("::get_text")]
+    if len(fns) != 1:
+        ctx.bad("R1", "NodeText::get_text:anchor", "the text-predicate helper NodeText::get_text was not found exactly once (found %d)" % len(fns))
+        return
+    fn = fns[0]
+    ext = [pt for pt, c, d in calls_named(fn, "Vec", "extend_from_slice")]
+    clr = [pt for pt, c, d in calls_named(fn, "Vec", "::clear")]
+    ctx.floor("buffer appends in NodeText::get_text", len(ext), 2)
+    ctx.before("R1", "NodeText::get_text:buffer-cleared-per-text", fn, ext, clr,
+               "the scratch buffer is cleared inside get_text before a multi-chunk text is assembled (one NodeText serves several texts per match)")
+    sat = [f for f in F.fn_list if f.name.endswith("satisfies_text_predicates")]
+    if sat:
+        ctx.ok("R1", "satisfies_text_predicates:present", "QueryMatch::satisfies_text_predicates analysed (%d blocks)" % len(sat[0].blocks), nontrivial=False)
+
+
 def run(ctx):
     for cfg in configs(ctx):
         ctx.config = cfg
@@ -218,6 +239,7 @@ def run(ctx):
         rule_f1(ctx, F)
         rule_p2(ctx, F)
         rule_p3(ctx, F)
+    rule_rust(ctx)
     return ctx.finish(
         "Pairing and field-coverage rules over query.c: every discard of a query state under capture-list-pool exhaustion is preceded by "
         "did_exceed_match_limit = true; ts_query_cursor_exec re-initialises each per-execution field of TSQueryCursor on every path; "
